@@ -82,7 +82,7 @@ def tree_hash(repo, features=""):
     return h.hexdigest()[:24]
 
 
-def _prune(factsroot, keep=6):
+def _prune(factsroot, keep=16):
     try:
         ds = [os.path.join(factsroot, d) for d in os.listdir(factsroot)]
         ds = [d for d in ds if os.path.isdir(d)]
